@@ -21,6 +21,7 @@ import (
 	"sync"
 	"time"
 
+	"github.com/bufbuild/buf/private/buf/bufworkspace"
 	"github.com/bufbuild/bufverif/internal/bufx"
 	"github.com/bufbuild/bufverif/internal/enum"
 	"github.com/bufbuild/bufverif/internal/evid"
@@ -38,7 +39,8 @@ type Case struct {
 	Files     map[string]string `json:"files,omitempty"`
 	World     *WorldInfo        `json:"world,omitempty"` // module table and file ownership (texts are in Files)
 	Note      string            `json:"note,omitempty"`
-	Fault     *FaultPlan        `json:"fault,omitempty"` // fault phase: the injected read fault
+	Format    string            `json:"format,omitempty"` // cli: output encoding of `buf build -o -#format=...` (empty = binpb)
+	Fault     *FaultPlan        `json:"fault,omitempty"`  // fault phase: the injected read fault
 }
 
 // WorldInfo is the structure of a world without the texts, enough to re-judge a recorded case.
@@ -140,7 +142,11 @@ func assignments(n int) (mods [][]int, dirs [][]string) {
 }
 
 func specKey(s *Spec) string {
-	return fmt.Sprintf("%v|%v|%v|%v|%v|%d.%d", s.Kind, s.Syntax, s.Wkt, s.Mod, s.ModDirs, s.Shadow, s.ShadowWkts)
+	k := fmt.Sprintf("%v|%v|%v|%v|%v|%d.%d", s.Kind, s.Syntax, s.Wkt, s.Mod, s.ModDirs, s.Shadow, s.ShadowWkts)
+	if s.Pkg != nil {
+		k += fmt.Sprintf("|pkg%v", s.Pkg)
+	}
+	return k
 }
 
 // subDirSelections: the workspace root and every module directory as the input.
@@ -190,6 +196,30 @@ func normErr(err error) string {
 	return s
 }
 
+// buildSelection builds the image of one selection through the API: workspace for the bucket (for a .proto file reference
+// the way the controller does it: the directory of the file is the input, the file the only target path, plus
+// WithProtoFileTargetPath), then bufimage.BuildImage.
+func buildSelection(ctx context.Context, files map[string]string, sel Selection) ([]obsFile, error) {
+	subDir, paths, excludes := sel.SubDir, sel.Paths, sel.Excludes
+	var options []bufworkspace.WorkspaceBucketOption
+	if sel.ProtoFile != "" {
+		subDir, paths, excludes = ".", []string{sel.ProtoFile}, nil
+		if i := strings.LastIndex(sel.ProtoFile, "/"); i >= 0 {
+			subDir = sel.ProtoFile[:i]
+		}
+		options = append(options, bufworkspace.WithProtoFileTargetPath(sel.ProtoFile, sel.IncludePkg))
+	}
+	ws, err := bufx.Workspace(ctx, bufx.MemBucket(files), subDir, paths, excludes, bufx.NopProviders, options...)
+	if err != nil {
+		return nil, err
+	}
+	image, err := bufx.BuildWorkspaceImage(ctx, ws)
+	if err != nil {
+		return nil, err
+	}
+	return observeImage(image), nil
+}
+
 // runWorld builds one world under every selection through the API and checks each outcome. It returns the signatures
 // reported per selection (key Selection.String()).
 func (rn *runner) runWorld(phase string, s *Spec, w *World, sels []Selection, directFor func([]string) *Direct) map[string]map[string]bool {
@@ -203,15 +233,7 @@ func (rn *runner) runWorld(phase string, s *Spec, w *World, sels []Selection, di
 		cnt.add("api_builds", 1)
 		mkCase := func() any { return Case{Phase: phase, Spec: s, Selection: &sel, Files: files, World: infoOf(w)} }
 		targets := refTargets(w, sel)
-		ws, err := bufx.Workspace(rn.ctx, bufx.MemBucket(files), sel.SubDir, sel.Paths, sel.Excludes, bufx.NopProviders)
-		var obs []obsFile
-		if err == nil {
-			image, berr := bufx.BuildWorkspaceImage(rn.ctx, ws)
-			err = berr
-			if err == nil {
-				obs = observeImage(image)
-			}
-		}
+		obs, err := buildSelection(rn.ctx, files, sel)
 		if err != nil {
 			switch {
 			case len(targets) == 0:
@@ -234,6 +256,9 @@ func (rn *runner) runWorld(phase string, s *Spec, w *World, sels []Selection, di
 		}
 		exp := &expectation{world: w, targets: targets, direct: direct}
 		vs := checkImage("api", exp, obs, cnt)
+		if sel.ProtoFile != "" {
+			vs = rn.protoFileAlternative("api", exp, sel, obs, vs, directFor, cnt)
+		}
 		report(rn.r, vs, mkCase())
 		for _, v := range vs {
 			if reported[sel.String()] == nil {
@@ -250,7 +275,7 @@ func (rn *runner) runWorld(phase string, s *Spec, w *World, sels []Selection, di
 		if len(sel.Excludes) > 0 {
 			cnt.add("selection_with_excludes", 1)
 		}
-		if sel.SubDir != "." {
+		if sel.ProtoFile == "" && sel.SubDir != "." {
 			cnt.add("selection_module_dir_input", 1)
 		}
 	}
@@ -387,11 +412,16 @@ func run(r *evid.Run) {
 		"x every input directory (workspace root, each module directory). phase paths: the 25 DAG shapes on 3 files x kind rotation x assignments x every --path subset (size<=2) and --exclude-path subset (size<=1) " +
 		"over {every file, every directory, one non-existing path} (quick: 2 assignments per shape, two paths only without exclude; thorough: all 8 assignments, full product on 4 of them). " +
 		"phase shadow: workspaces that supply their own google/protobuf/any.proto. phase remote: every DAG on 2..3 files (plain/public) x every split in which one part is a registry dependency pinned at a commit. phase dup: one path present in two modules (an ordinary path; the path of a well-known type). phase fault: the shadow worlds (the module supplies any.proto and timestamp.proto) x input directory x every file of the bucket x {Stat, Get, Read fails} x {EIO, EACCES} (quick: half of the two-file worlds, persistent faults, the error values alternate; thorough: x {always, first call only}, + for the workspace root as input one path / one exclude with persistent faults). phase cli: `buf build <dir> -o -#format=binpb` with path selections on scratch directories, output decoded without bufimage. " +
-		"phase errors: 6 base workspaces x every token position x {delete, duplicate}, API and CLI (absolute and relative input directory). A case is distinct by (workspace, selection) resp. (base, file, token, operator); " +
+		"phase errors: 6 base workspaces x every token position x {delete, duplicate}, plus every import statement x 9 other spellings of its path (./p, p/, p/., /p, a//b, a/./b, a/../a/b, a/b/../b/c, nope/p: literally different from every file name, although a path-normalising storage layer maps most of them back to the file), API and CLI (absolute and relative input directory). " +
+		"phase protofile: the input is a .proto file reference: 25 DAG shapes on 3 files x assignment x package pattern (each file: own package, a shared package, no package statement: 27) x every file x include_package_files in {false, true}, API and (every fourth world) CLI. " +
+		"phase options: a custom option declared at each of 15 placements (file level, or inside message i1.i2.i3 of a binary message tree of depth 3; index 1 = not the first message of its parent) x extendee {File,Message,Field}Options x value {string, message literal, Any literal} x user {declaring file, importer in the same module, importer in another module} (quick: extendee and value rotate) + worlds with all 15 at once sharing extension numbers across extendees; API and CLI in every output encoding (binpb, json, txtpb, yaml; the text encodings are parsed back with a resolver made from the bare compiler's descriptors). phase cli also builds every world once in a text encoding (rotating). " +
+		"A case is distinct by (workspace, selection[, encoding]) resp. (base, file, token, operator); " +
 		"it is non-trivial if the image has >=2 files resp. the mutation is a compile error.")
 	r.Assume("the Protobuf compiler of the property is github.com/bufbuild/protocompile (the compiler buf links); it is run bare (own map resolver, standard imports, same SourceInfoMode, compiling exactly the reference targets) as the oracle")
 	r.Assume("dependencies with a commit are served by an in-process provider (bufmoduletesting.OmniProvider) and pinned in buf.lock; API observation point only (the CLI's registry client cannot be replaced offline)")
 	r.Assume("read faults are injected at the storage.ReadBucket interface of the workspace bucket (API observation point; the process runs as root, so unreadable files cannot be produced on disk for the CLI); with a fault either outcome is accepted, error or an image that is correct for the fault-free texts")
+	r.Assume(".proto file references: the referenced file is targeted, with include_package_files also the files of ITS module that declare the same package; a file without a package statement has no package files (buf's documented behaviour); files of another module that declare the same package may or may not be targeted (both readings accepted)")
+	r.Assume("text encodings are compared by meaning: both sides are read with the reference resolver (custom options as typed extension fields, Any payloads re-encoded deterministically), because a text round trip does not preserve the byte order of unknown fields")
 	r.Assume("selections buf refuses by design (module directory as --path/--exclude-path, exclude containing a path) may error; when they build, the image is checked")
 	r.Assume("the compiler reports unused imports only for the files it is asked to compile, so a non-targeted import never carries unused-dependency markers; this is taken as 'what the compiler produces'")
 
@@ -505,7 +535,7 @@ func run(r *evid.Run) {
 	r.Set("shadow_phase_worlds", nShadow)
 
 	phaseOn := func(p string) bool {
-		f := os.Getenv("C01_PHASES") // debugging aid: comma separated subset of graph,paths,shadow,remote,dup,fault,cli,errors
+		f := os.Getenv("C01_PHASES") // debugging aid: comma separated subset of graph,paths,shadow,remote,dup,fault,protofile,options,cli,errors
 		return f == "" || strings.Contains(","+f+",", ","+p+",")
 	}
 	if os.Getenv("C01_PHASES") != "" {
@@ -529,6 +559,12 @@ func run(r *evid.Run) {
 		}
 		if phaseOn("fault") {
 			rn.runFaultPhase()
+		}
+		if phaseOn("protofile") {
+			rn.runProtoFilePhase(scratch)
+		}
+		if phaseOn("options") {
+			rn.runOptionsPhase(scratch)
 		}
 		if phaseOn("cli") {
 			rn.runCLIPhase(scratch, items)
@@ -570,6 +606,9 @@ func run(r *evid.Run) {
 		"selection_with_paths", "selection_with_excludes", "selection_module_dir_input",
 		"clause_owner_files_with_commit", "dup_cases", "dup_cases_wkt", "fault_builds", "fault_outcome_error_workspace-wkt", "fault_outcome_error_target-file",
 		"fault_outcome_error_imported-file", "fault_outcome_error_config-file", "fault_outcome_image_fault_not_reached", "cli_images", "error_cases_compile_error", "error_cases_still_compile", "cli_error_runs",
+		"error_cases_import_respelled", "protofile_selections", "protofile_include_adds_package_files", "protofile_package_less_target_with_package_less_sibling",
+		"protofile_same_package_in_another_module", "protofile_cli_builds", "cli_images_json", "cli_images_txtpb", "cli_images_yaml",
+		"options_decl_depth_0", "options_decl_depth_3", "options_decl_under_non_first_message", "options_text_custom_option_values_expected",
 	} {
 		if rn.cnt[k] == 0 && !r.Expired() {
 			r.Incomplete("vacuous: counter " + k + " is zero")
